@@ -352,6 +352,7 @@ class SimNet:
             p2 = self._mk(pkt.src, pkt.dst, pkt.data, pkt.src_node, pkt.label, pkt.cause, pkt.injected)
             p2.wire_src = pkt.wire_src
             p2.dup = True
+            self._notify(p2, "dup")
             self._schedule(p2, self.lat_min + l2 * (self.lat_jit + lat))
 
     def _schedule(self, pkt: Pkt, lat: float) -> None:
